@@ -28,6 +28,8 @@ type PKI struct {
 	CA1Pool          *x509.CertPool
 	Creds            map[string]*Cred
 	Order            []string
+	// IssueCA1 makes one more leaf signed by CA1 with the given validity window (not added to Order)
+	IssueCA1 func(name string, notBefore, notAfter time.Time) *Cred
 }
 
 func mkKey() *ecdsa.PrivateKey {
@@ -99,6 +101,11 @@ func New(dir string) *PKI {
 		}
 		p.Creds[name] = &Cred{Name: name, CertPath: cp, KeyPath: kp, TLSCert: &tc}
 		p.Order = append(p.Order, name)
+	}
+	p.IssueCA1 = func(name string, nb, na time.Time) *Cred {
+		leaf(name, ca1, k1, func(t *x509.Certificate) { t.NotBefore, t.NotAfter = nb, na })
+		p.Order = p.Order[:len(p.Order)-1]
+		return p.Creds[name]
 	}
 	leaf("valid-ca1", ca1, k1, nil)
 	leaf("valid-ca1-second", ca1, k1, nil)
